@@ -1,6 +1,8 @@
 #![allow(dead_code)]
 #![allow(clippy::too_many_arguments)]
+mod backrun;
 mod chooser;
+mod clirun;
 mod conc;
 mod confrun;
 mod content;
@@ -11,6 +13,7 @@ mod malrun;
 mod model;
 mod props;
 mod qspec;
+mod rqcow2;
 mod selftest;
 mod sim;
 mod workload;
@@ -102,6 +105,8 @@ pub fn run_case(p: &Profile, seed: u64, run: u64, ov: &Override, want_case: bool
         Kind::Fault => faultrun::run_fault(p, seed, run, ov, want_case),
         Kind::Conformance => confrun::run_conf(p, seed, run, ov, want_case),
         Kind::Malformed => malrun::run_mal(p, seed, run, ov, want_case),
+        Kind::Backends => backrun::run_back(p, seed, run, ov, want_case),
+        Kind::Cli => clirun::run_cli(p, seed, run, ov, want_case),
         _ => {
             let mut o = RunOut::default();
             o.run = run;
